@@ -153,6 +153,47 @@ def detach_scenario(name, transport, pair=("PUSH", "PULL")):
                                             {"op": "close", "sock": "tb", "timeout_ms": 3000}]}]}
 
 
+def framewise_send(name, tx_type, rx_type, transport, shapes, nrx=2):
+    """The sender passes each message part by part (send() with MORE) while several peers are attached."""
+    sent = {}
+    rx_opts = [[S.SUBSCRIBE, "str", ""]] if rx_type == "SUB" else []
+    socks = [{"name": "tx", "type": tx_type, "opts": [S.i32(S.SNDTIMEO, 4000)]}]
+    tasks = []
+    P = nrx + 1
+    for j in range(nrx):
+        ep = S.endpoint(transport, name)
+        socks.append({"name": "rx%d" % j if j else "rx", "type": rx_type, "opts": list(rx_opts)})
+        nm = "rx%d" % j if j else "rx"
+        tasks.append({"name": nm, "ops": [{"op": "bind", "sock": nm, "ep": ep, "save": "ep%d" % j}, {"op": "barrier", "name": "go", "parties": P},
+                                          {"op": "recv_n", "sock": nm, "n": len(shapes) + 2, "timeout_ms": 1500, "multipart": True}]})
+    tx_ops = [{"op": "barrier", "name": "go", "parties": P}] + [{"op": "connect", "sock": "tx", "ep": "$ep%d" % j} for j in range(nrx)] + [{"op": "sleep", "ms": 350}]
+    for k, sh in enumerate(shapes, 1):
+        mid = "m:%d" % k
+        sent[mid] = list(sh)
+        for i, sz in enumerate(sh, 1):
+            tx_ops.append({"op": "send", "sock": "tx", "mid": "%s.%d" % (mid, i), "size": sz, "more": i < len(sh), "timeout_ms": 4000})
+    tasks.append({"name": "tx", "ops": tx_ops})
+    return {"name": name, "deadline_ms": 60000, "sent": sent, "strip": 1 if rx_type == "ROUTER" else 0, "receivers": ["rx"] + ["rx%d" % j for j in range(1, nrx)],
+            "sockets": socks, "tasks": tasks}
+
+
+def rep_frames_scenario(name, transport):
+    """A DEALER sends multi-frame requests to a REP that reads them frame by frame / mixed."""
+    ep = S.endpoint(transport, name)
+    sent = {"m:1": [24, 24, 24], "m:2": [24, 24], "m:3": [24, 24, 24, 24]}
+    rep = [{"op": "bind", "sock": "rx", "ep": ep, "save": "ep"}, {"op": "barrier", "name": "go", "parties": 2}]
+    rep += [{"op": "recv", "sock": "rx", "timeout_ms": 2000}] * 3 + [{"op": "send", "sock": "rx", "mid": "p:1", "size": 10, "timeout_ms": 2000}]
+    rep += [{"op": "recv", "sock": "rx", "timeout_ms": 2000}, {"op": "recv_mp", "sock": "rx", "timeout_ms": 2000}, {"op": "send", "sock": "rx", "mid": "p:2", "size": 10, "timeout_ms": 2000}]
+    rep += [{"op": "recv", "sock": "rx", "timeout_ms": 2000}, {"op": "recv", "sock": "rx", "timeout_ms": 2000}, {"op": "recv_mp", "sock": "rx", "timeout_ms": 2000},
+            {"op": "send", "sock": "rx", "mid": "p:3", "size": 10, "timeout_ms": 2000}]
+    dl = [{"op": "barrier", "name": "go", "parties": 2}, {"op": "connect", "sock": "tx", "ep": "$ep"}, {"op": "sleep", "ms": 250}]
+    for mid, sh in sent.items():
+        dl += [{"op": "send_mp", "sock": "tx", "mid": mid, "sizes": sh, "timeout_ms": 3000}, {"op": "recv_mp", "sock": "tx", "timeout_ms": 3000}]
+    return {"name": name, "deadline_ms": 40000, "sent": sent, "strip": 0,
+            "sockets": [{"name": "rx", "type": "REP", "opts": []}, {"name": "tx", "type": "DEALER", "opts": []}],
+            "tasks": [{"name": "rep", "ops": rep}, {"name": "dealer", "ops": dl}]}
+
+
 def concurrent_scenario(name, transport, npeers=3, nmsgs=30):
     ep = S.endpoint(transport, name)
     socks = [{"name": "rx", "type": "PULL", "opts": []}]
@@ -232,21 +273,46 @@ def run(ctx):
         for tr in (["tcp", "ipc", "inproc"] if thorough else ["tcp"]):
             scs.append(detach_scenario("mp-detach%s-%s" % (pair[1].lower(), tr), tr, pair))
     scs.append(concurrent_scenario("mp-concurrent-tcp", "tcp"))
+    # every way of reading x every receiver that takes multipart; parts passed one by one at the sender
+    for style in ["recv", "mixed"]:
+        scs.append(mp_scenario("mp-dealerrouter-tcp-%s" % style, "DEALER", "ROUTER", "tcp", style, SHAPES))
+        scs.append(mp_scenario("mp-routerdealer2-tcp-%s" % style, "ROUTER", "DEALER", "tcp", style, [[24], [24, 0, 24], [13] * 9, [255, 256]]))
+        if thorough:
+            scs.append(mp_scenario("mp-pubsub-tcp-%s" % style, "PUB", "SUB", "tcp", style, [[24, 24, 24], [24, 0], [13] * 6]))
+            scs.append(mp_scenario("mp-dealerrouter-inproc-%s" % style, "DEALER", "ROUTER", "inproc", style, SHAPES))
+    scs.append(rep_frames_scenario("mp-repframes-tcp", "tcp"))
+    for (t, rcv) in [("PUSH", "PULL"), ("DEALER", "ROUTER"), ("PUB", "SUB")]:
+        scs.append(framewise_send("mp-framewise%s-tcp" % t.lower(), t, rcv, "tcp", [[24, 24, 24], [24, 24], [24], [13] * 6, [24, 0, 24]]))
+    # a DEALER message of 257 parts passed one by one: refused at some part, never a panic
+    big = framewise_send("mp-framewisedealer-toomany", "DEALER", "ROUTER", "tcp", [[5] * 257, [24, 24]], nrx=1)
+    big["toomany"] = True
+    scs.append(big)
     for (t, rcv) in [("PUSH", "PULL"), ("DEALER", "ROUTER"), ("PUB", "SUB")]:
         for nf in ([249, 250, 251, 253, 255, 256, 300] if thorough else [250, 251, 255, 256]):
             scs.append(cap_scenario("cap-%s-%d" % (t.lower(), nf), t, rcv, nf))
+    extra = [(s.pop("receivers", ["rx"]), s.pop("toomany", False)) for s in scs]
     meta = [(s.pop("sent"), s.pop("strip"), s.pop("nframes", None)) for s in scs]
     res = S.run_scenarios(ctx, scs, "c02", timeout=2400, jobs=4)
-    for sc, (sent, strip, nframes), r0 in zip(scs, meta, res):
+    for sc, (sent, strip, nframes), (receivers, toomany), r0 in zip(scs, meta, extra, res):
         backend = "io_uring" if sc.get("uring") else "tokio"
         rp = {"kind": "recorded-trace", "scenario": sc["name"], "records": [x for x in r0["records"] if x.get("ev") == "ret"][:250], "hung": r0["hung"], "panics": r0["panics"]}
         kind = sc["name"].split("-")[1] if not sc["name"].startswith("cap") else "cap-" + sc["name"].split("-")[1]
         if r0["panics"]:
             ctx.violation("C02:panic:%s" % kind, "%s: panic inside rzmq: %s" % (sc["name"], r0["panics"][0][:300]), rp)
-        fs = frame_stream(r0, "rx")
-        if sc["name"].startswith("mp-routerdealer"):
-            fs = [f for f in fs]
-        problem, msgs = check_whole(fs, sent, strip)
+        if toomany:
+            # the over-long message must have been refused at some part; what follows a refusal is up to the
+            # application, so only the absence of a panic (above) and the refusal are judged
+            refused = [x for x in S.rets(r0, "send", sock="tx") if x.get("res") != "ok"]
+            if not refused:
+                ctx.violation("C02:cap:accepted:framewise", "%s: 257 parts passed one by one were all accepted" % sc["name"], rp)
+            continue
+        problem, msgs = None, []
+        for rcv in receivers:
+            problem, m1 = check_whole(frame_stream(r0, rcv), sent, strip)
+            msgs += m1
+            if problem:
+                problem = "%s: %s" % (rcv, problem)
+                break
         if problem:
             ctx.violation("C02:not-whole:%s:%s" % (kind, backend), "%s: %s" % (sc["name"], problem), rp)
             continue
@@ -256,6 +322,10 @@ def run(ctx):
             if tagged:
                 seen.add(tagged[0][0].rsplit(".", 1)[0])
         sends = {x["mid"]: x["res"] for x in S.rets(r0, "send_mp", sock="tx")}
+        for x in S.rets(r0, "send", sock="tx"):
+            m = x.get("mid", "").rsplit(".", 1)[0]
+            if x.get("res") != "ok" or m not in sends:
+                sends[m] = x["res"] if x.get("res") != "ok" else sends.get(m, "ok")
         for p in range(3):
             sends.update({x["mid"]: x["res"] for x in S.rets(r0, "send_mp", sock="t%d" % p)})
         sends.update({x["mid"]: x["res"] for x in S.rets(r0, "send_mp", sock="ta")})
